@@ -271,6 +271,11 @@ class ProcModel(Model):
         self.attrs = {}
 
     def regidx(self, idx, what):
+        if isinstance(idx, U.PInt) and idx.bv is not None:
+            if idx.neg:
+                self.e['notes'].append("the register file is indexed with a negative Python integer (a register number read with "
+                                       ".int()): Python wraps the index to another register")
+            idx = idx.bv
         if isinstance(idx, (int, bool)):
             idx = BV.const(int(idx), 5)
         if not isinstance(idx, BV) or idx.n != 5:
@@ -800,6 +805,11 @@ class CLModel(ProcModel):
         if path.endswith('.rdy') and not args:
             return True
         if path.endswith('.enq') and len(args) == 1:
+            for x in (args[0] if isinstance(args[0], tuple) else ()):
+                if isinstance(x, U.PInt) and x.neg:
+                    e['notes'].append(f"a register number is handed to the next stage as a signed Python integer (`.int()` of the "
+                                      f"{x.bv.n}-bit field): it is negative for x{1 << (x.bv.n - 1)}..x{(1 << x.bv.n) - 1}, so a later "
+                                      f"`rd > 0` test treats the instruction as having no destination and drops the write-back")
             self.queues.setdefault(path[:-4], []).append(args[0])
             return None
         if path.endswith('.peek') and not args:
@@ -1062,9 +1072,11 @@ def compare_case(cube, run_want, run_got, stats):
 
 def describe(diffs):
     k, want, got = diffs[0]
+    notes = [g for kk, w, g in diffs[1:] if kk == 'notes' and g]
     return (f"{SLOT_TEXT[k]} differs: the ISA gives {show(want) if want is not None else 'none'}, "
             f"the model gives {show(got) if got is not None else 'none'}"
-            + (f" (+{len(diffs) - 1} more differing slots)" if len(diffs) > 1 else ''))
+            + (f" (+{len(diffs) - 1} more differing slots)" if len(diffs) > 1 else '')
+            + (f" -- {show(notes[0])}" if notes else ''))
 
 
 def spec_cases(spec):
@@ -1111,7 +1123,7 @@ def rule_fl(repo):
     return semantics_rule(repo, 'R-C20-fl',
                           "ProcFL: decode (TinyRV0Inst.name) + execute branch of every instruction denotes the ISA semantics "
                           "(same operation, operands, immediate bits, destination, memory/manager/accelerator access, next PC)",
-                          run_fl, FL, 'ProcFL.construct.up_ProcFL', 12)
+                          run_fl, FL, 'ProcFL.construct.up_ProcFL', 13)
 
 
 def cl_redirect_tests(repo, r):
@@ -1175,7 +1187,7 @@ def rule_cl(repo):
     r = semantics_rule(repo, 'R-C20-cl',
                        "ProcCL: one instruction flowing through fetch, execute and write-back denotes the ISA semantics; the "
                        "redirect register is read as sentinel-or-address consistently by every stage",
-                       run_cl, CL, 'ProcCL.construct', 12)
+                       run_cl, CL, 'ProcCL.construct', 13)
     cl_redirect_tests(repo, r)
     r.require_floor(16)
     return r
@@ -1186,7 +1198,7 @@ def rule_rtl(repo):
                        "ProcRTL: decoder output -> control-table row -> datapath (immediate generator, operand muxes, ALU "
                        "function table, write-back mux, memory/manager/accelerator ports) composed through the wiring of "
                        "ProcRTL denotes the ISA semantics, in the steady-flow abstraction (no stall, no squash, no bypass)",
-                       run_rtl, CTRL, 'ProcCtrl.construct.comb_control_table_D', 12)
+                       run_rtl, CTRL, 'ProcCtrl.construct.comb_control_table_D', 13)
     st = rtl_setup(repo)
     r.observations.append(f"steady-flow abstraction: {len(st.over)} boundary/bookkeeping signals fixed, operand bypass "
                           f"muxes treated as register reads: {', '.join(st.bypass_muxes)}")
@@ -1277,7 +1289,7 @@ def rule_isa_doc(repo):
         if not pd:
             raise AnalysisError(f"R-C20-isa-doc: the embedded tampered document (`{old}` -> `{new}`) is not flagged")
     r.evaluations += len(probes)
-    r.require_floor(16)
+    r.require_floor(18)
     return r
 
 
@@ -1420,7 +1432,7 @@ def rule_encoding(repo):
                                            f"every assembled program using the field executes another instruction")
         else:
             r.ok(m, fref.node.name, cons + f" ({len(paths)} paths)")
-    r.require_floor(26)
+    r.require_floor(29)
     return r
 
 
@@ -1467,7 +1479,7 @@ def rule_isa_set(repo):
                                      f"cannot be assembled / is rejected / is silently skipped by this model")
             else:
                 r.bad(mod, fn, cons, f"`{name}` in the {what} is not an instruction of the ISA document")
-    r.require_floor(50)
+    r.require_floor(54)
     return r
 
 
@@ -1559,7 +1571,7 @@ def rule_decode(repo):
             r.bad(inst, 'DecodeInstType.construct.comb_logic', cons, bad)
         else:
             r.ok(inst, 'DecodeInstType.construct.comb_logic', cons + f" -> codes {sorted(by_code)}")
-    r.require_floor(20)
+    r.require_floor(22)
     return r
 
 
@@ -1704,7 +1716,7 @@ def rule_arch(repo):
                                                f"the ISA reset vector is {rv:#x}")
     else:
         r.ok(dp, 'ProcDpath.construct', cons)
-    r.require_floor(6)
+    r.require_floor(7)
     return r
 
 
@@ -2121,7 +2133,7 @@ def rule_hazard_symmetry(repo):
                   f"bypass protects that operand, it is read stale right after an instruction writing it")
         else:
             r.ok(mod, 'ProcCtrl.construct.comb_control_table_D', cons)
-    r.require_floor(16)
+    r.require_floor(18)
     return r
 
 
@@ -2345,7 +2357,7 @@ def rule_stage_regs(repo):
         else:
             r.ok(dp, 'ProcDpath.construct', cons + f" ({enable[S]})")
     r.observations.append(f"stage enables discovered from the valid-bit registers: {dict(sorted(enable.items()))}")
-    r.require_floor(30)
+    r.require_floor(40)
     return r
 
 
@@ -2608,6 +2620,7 @@ MUTANTS = [
     _m('cl-redirect-test-excludes-address-0', CL, "        if s.redirected_pc_DXM >= 0:\n          s.imem.req", "        if s.redirected_pc_DXM > 0:\n          s.imem.req", 'R-C20-cl'),
     _m('cl-redirect-cleared-to-zero', CL, "          s.redirected_pc_DXM = -1\n", "          s.redirected_pc_DXM = 0\n", 'R-C20-cl'),
     _m('cl-execute-redirect-test-off-by-one', CL, "      if s.redirected_pc_DXM >= 0:\n        s.DXM_status", "      if s.redirected_pc_DXM >= 4:\n        s.DXM_status", 'R-C20-cl'),
+    _m('cl-lw-rd-as-signed-int', CL, "s.DXM_W_queue.enq( (inst.rd, 0, DXM_W.mem) )", "s.DXM_W_queue.enq( (inst.rd.int(), 0, DXM_W.mem) )", 'R-C20-cl'),
     _m('cl-mngr2proc-not-dequeued', CL, "s.DXM_W_queue.enq( (inst.rd, s.mngr2proc_q.deq(), DXM_W.arith) )", "s.DXM_W_queue.enq( (inst.rd, s.mngr2proc_q.peek(), DXM_W.arith) )", 'R-C20-cl'),
     _m('cl-store-response-left-in-queue', CL, "              else: # store\n                s.dmemresp_q.deq()", "              else: # store\n                pass", 'R-C20-cl'),
     # --- ProcCtrlRTL ----------------------------------------------------------------------------------------------
@@ -2724,6 +2737,9 @@ EQUIV = [
     _m2('enc-rows-reordered', [(ENC, '  [ "lw     rd, i_imm(rs1)",   0b00000000000000000111000001111111, 0b00000000000000000010000000000011 ], # I-type\n  [ "sw     rs2, s_imm(rs1)",  0b00000000000000000111000001111111, 0b00000000000000000010000000100011 ], # S-type',
                                 '  [ "sw     rs2, s_imm(rs1)",  0b00000000000000000111000001111111, 0b00000000000000000010000000100011 ], # S-type\n  [ "lw     rd, i_imm(rs1)",   0b00000000000000000111000001111111, 0b00000000000000000010000000000011 ], # I-type')]),
     _m('cl-redirect-test-negated', CL, "        if s.redirected_pc_DXM >= 0:\n          s.imem.req", "        if not (s.redirected_pc_DXM < 0):\n          s.imem.req"),
+    _m('cl-lw-rd-as-unsigned-int', CL, "s.DXM_W_queue.enq( (inst.rd, 0, DXM_W.mem) )", "s.DXM_W_queue.enq( (inst.rd.uint(), 0, DXM_W.mem) )"),
+    _m('cl-lw-rd-via-int-builtin', CL, "s.DXM_W_queue.enq( (inst.rd, 0, DXM_W.mem) )", "s.DXM_W_queue.enq( (int(inst.rd), 0, DXM_W.mem) )"),
+    _m('cl-wb-guard-as-ne-zero', CL, "              if rd > 0: # load", "              if rd != 0: # load"),
     _m('cl-x0-guard-redundant', CL, "if rd > 0: s.R[ rd ] = Bits32( data )", "s.R[ rd ] = Bits32( data )"),
     _m('cl-execute-block-renamed', CL, "def DXM():", "def DXM_stage():"),
     _m('cl-bne-as-not-eq', CL, "if s.R[ inst.rs1 ] != s.R[ inst.rs2 ]:", "if not (s.R[ inst.rs2 ] == s.R[ inst.rs1 ]):"),
